@@ -599,7 +599,7 @@ def coq_init(table, version: int, tfcols: list[str], params: int, fixes: dict) -
 
 def _coq_init(tables: list[str], version: int, tfcols: list[str], params: int, fixes: dict) -> str:
     fx = (f"{{| fx77 := {coq_bool(fixes['fx77'])}; fx716 := {coq_bool(fixes['fx716'])}; "
-          f"fx715 := {coq_bool(fixes.get('fx715', False))}; fx718 := {coq_bool(fixes.get('fx718', False))}; fxba := {coq_bool(fixes.get('fxba', False))} |}}")
+          f"fx715 := {coq_bool(fixes.get('fx715', False))}; fx718 := {coq_bool(fixes.get('fx718', False))}; fxba := {coq_bool(fixes.get('fxba', False))}; fxco := {coq_bool(fixes.get('fxco', False))} |}}")
     return (f"(init_state K {coq_list(['LPlain ' + coq_string(t) for t in tables])} {coq_nat(version)} "
             f"{coq_list([coq_string(c) for c in tfcols], 'string')} {coq_nat(params)} 5 6 {fx})")
 
